@@ -1327,6 +1327,12 @@ class Sym:
                     continue
                 a, b = vals
                 nv = self.arith(bop, a, b)
+                if isinstance(nv, tuple) and nv[:1] == ('k',) and isinstance(nv[1], int):
+                    # the result is converted to the type of the left operand: unsigned arithmetic wraps at its width
+                    lt = (strip_casts(e['l']).get('t') or '').replace('const ', '').strip()
+                    w_ = _INT_TYPES.get(lt)
+                    if w_ is not None and not w_[1]:
+                        nv = ('k', nv[1] & ((1 << w_[0]) - 1), 'int')
                 for s2 in self.assign(s, e['l'], nv):
                     out.append((s2, nv))
             return out
@@ -1376,6 +1382,8 @@ class Sym:
             return ('k', a[1][2][1] - b[1][2][1], 'int')
         if a[0] == 'k' and b[0] == 'k' and isinstance(a[1], int) and isinstance(b[1], int):
             r = {'+': a[1] + b[1], '-': a[1] - b[1], '*': a[1] * b[1], '|': a[1] | b[1], '&': a[1] & b[1], '^': a[1] ^ b[1]}.get(op)
+            if r is None and op in ('<<', '>>') and 0 <= b[1] < 128 and a[1] >= 0:
+                r = a[1] << b[1] if op == '<<' else a[1] >> b[1]
             if r is not None:
                 return ('k', r, 'int')
         if op in ('+', '-') and b[0] == 'k' and isinstance(b[1], int):
